@@ -76,7 +76,12 @@ func (k *K) clientVerifyRule(prefix, ct, method string) {
 	_ = proof
 	var value string
 	if method == "VerifyPacketCleanCommitment" {
+		// Tendermint proves the stored bytes themselves (8-byte big-endian sequence); the
+		// EVM-style clients prove a 32-byte storage word holding the same number
 		value = "github.com/cosmos/cosmos-sdk/types.Uint64ToBigEndian(" + seq.String() + ")"
+		if ct != pTM {
+			value = "github.com/ethereum/go-ethereum/common.LeftPadBytes(" + value + ",const(32))"
+		}
 	} else {
 		value = P(9).String()
 	}
